@@ -23,7 +23,7 @@ INFO = {
                    "(offset,len) looked up by the same key and writes nothing else (so the result cannot depend on map iteration order "
                    "when declared ranges are disjoint).",
     "not_decided": "agreement of evaluation with a reference interpretation on arbitrary DAGs (numeric; the operator arithmetic is C19's), "
-                   "WriteBackReader's reversed-buffer arithmetic, prost's encoding itself",
+                   "WriteBackReader's reversed-buffer arithmetic (only its fill-or-EOF contract is decided, R20-5), prost's encoding itself",
     "assumptions": ["prost encode_length_delimited/decode_length_delimiter/Message::decode are mutually inverse", "byteorder read_u64/write_u64 with the same endianness type are inverse"],
 }
 
@@ -526,6 +526,45 @@ def check_framing(ctx, fb):
               "success paths %d, conforming %d: %s" % (len(oks), good, why), loc(rl))
 
 
+def check_reader_contract(ctx, fb):
+    """R20-5: read_message / read_message_length take the count returned by ONE call of WriteBackReader::read as 'all there
+    is' (a short count is reported as EOF, a varint cut short is mis-decoded). That is only right if that read fills the
+    buffer unless the underlying reader is at EOF - whatever reader the caller supplies (files and pipes return short reads)."""
+    it = fb.one(r"WriteBackReader<R> as (ark_serialize|std::io)::Read>::read$")
+    ctx.touch(it)
+    eng = Engine(fb, inline=lambda i: False)
+    bad = None
+    n = 0
+    for p in eng.run(it):
+        if p.kind != "return":
+            continue
+        rv = eng.value_of(p.store, p.ret)
+        if not (rv[0] == "adt" and rv[2] == "Ok"):
+            continue
+        n += 1
+        cnt = rv[4][0]
+        okp = False
+        for a, v in p.conds():
+            if a[0] != "b":
+                continue
+            t = a[1]
+            if t[0] == "is_empty" and v is True and cint(cnt) == 0:
+                okp = True          # empty destination
+            if t[0] == "bin" and t[1] == "Lt" and t[2] == cnt and v is False and any(s[0] == "len" for s in subterms(t[3])):
+                okp = True          # count reached the buffer length
+            if t[0] == "bin" and t[1] == "Ge" and t[2] == cnt and v is True and any(s[0] == "len" for s in subterms(t[3])):
+                okp = True
+            if t[0] == "bin" and t[1] == "Eq" and cnt in t[2:] and v is True and any(s[0] == "len" for x in t[2:] if x != cnt for s in subterms(x)):
+                okp = True          # count == buffer length
+            if t[0] == "bin" and t[1] == "Eq" and cint(t[3]) == 0 and v is True and t[2][0] == "unwrap" and t[2][1][0] == "call" and t[2][1][1].endswith("Read::read"):
+                okp = True          # the underlying reader reported end of input
+        if not okp:
+            bad = (p, cnt)
+    ctx.check(bad is None and n >= 3, "R20-5", "WriteBackReader::read fills or reaches EOF", "%d success paths: each returns with the buffer full, the destination empty, or after the inner reader returned 0" % n,
+              "a success path returns %s without having filled the buffer or seen end of input: with a reader that returns short reads (file, pipe) "
+              "read_message reports a valid container as truncated" % (sh(bad[1], 100) if bad else "?"), loc(it, bad[0].site) if bad else loc(it))
+
+
 def check_evaluate(ctx, fb):
     it = fb.need(G + "evaluate")
     ctx.touch(it)
@@ -659,6 +698,7 @@ def run(ctx):
     if len(tables) == 3:
         check_node_codec(ctx, fb, tables)
     check_framing(ctx, fb)
+    check_reader_contract(ctx, fb)
     check_evaluate(ctx, fb)
     # fixtures: a swapped operator table and a swapped field must be caught
     fx = ctx.fb("fixtures")
